@@ -118,10 +118,13 @@ Definition op_ok (op : string) (args : list expr) : bool :=
   | a :: _ => frag_op op && same_size (size a) args &&
               match opk_of op with OSub => (Nat.leb (List.length args) 2) | _ => true end
   end.
+(** [Q name width is_reg is_term]: an arbitrary predicate every identifier of the tree satisfies (the simplifier never invents identifiers, so it is preserved) *)
+Section IdPred.
+Variable IdQ : string -> Z -> bool -> bool -> bool.
 Fixpoint wf (e : expr) : bool :=
   match e with
   | EInt sg w v => negb sg && (0 <? w) && (0 <=? v) && (v <? 2 ^ w)
-  | EId _ w _ _ => 0 <? w
+  | EId n w r t => (0 <? w) && IdQ n w r t
   | EMem a w s => wf a && (0 <? w) && match s with None => true | Some u => wf u end
   | EOp op args => forallb wf args && op_ok op args
   | ECond c a b => wf c && wf a && wf b && (size a =? size b)
@@ -164,7 +167,7 @@ Section Sound.
   Proof.
     induction e using expr_ind'; simpl; intros W; try discriminate.
     - repeat (apply andb_true_iff in W as [W ?]). apply Z.ltb_lt in H1. split; [assumption | apply wrap_rng; lia].
-    - apply Z.ltb_lt in W. split; [assumption | apply wrap_rng; lia].
+    - apply andb_true_iff in W as [W _]. apply Z.ltb_lt in W. split; [assumption | apply wrap_rng; lia].
     - apply andb_true_iff in W as [W _]. apply andb_true_iff in W as [_ W]. apply Z.ltb_lt in W. split; [assumption | unfold mem_read; apply wrap_rng; lia].
     - apply andb_true_iff in W as [Wa Ok_]. destruct (op_ok_inv _ _ Ok_) as (a & r & -> & F & S).
       inversion H as [|? ? Ha Hr]; subst. simpl in Wa. apply andb_true_iff in Wa as [Wa _]. destruct (Ha Wa) as [Pa _].
@@ -796,3 +799,4 @@ Proof.
   intros fuel e e' W H. pose proof (simp_good (fun _ => 0) (fun _ => 0) (fun _ _ => 0) fuel e e' W H) as (A & B & _).
   split; [exact A|]. split; [exact B|]. intros rho mu iota. apply (simp_good rho mu iota fuel e e' W H).
 Qed.
+End IdPred.
